@@ -357,7 +357,7 @@ def run_check(pid, tier, seed):
     run_dir = os.path.join(BUILD, 'run')
     os.makedirs(run_dir, exist_ok=True)
     for f in glob.glob(os.path.join(run_dir, '*')):
-        for e in set(prop.entries + [prop.harness]):
+        for e in set(prop.entries + ([prop.harness] if prop.harness else [])):
             if os.path.basename(f).startswith(e + '.') and os.path.exists(f):
                 os.remove(f)
     known = load_known()
@@ -394,7 +394,12 @@ def run_check(pid, tier, seed):
         ex = prop.extra(prop, b, tier, seed)
         obligations += ex.get('obligations', 0)
         discharged += ex.get('discharged', 0)
-        violations += ex.get('violations', [])
+        for v_ in ex.get('violations', []):
+            k_ = match_known(v_, known, pid)
+            if k_:
+                known_hits.setdefault(k_['id'], []).append(v_)
+            else:
+                violations.append(v_)
         broken += ex.get('broken', [])
         extra_cov = ex.get('coverage', {})
 
